@@ -58,10 +58,12 @@ type Exec struct {
 	usedExterns map[string]bool
 	usedRelies  map[string]bool
 	paramVals   map[string][]*Val
+	pdomCache   map[*ssa.Function]map[*ssa.BasicBlock]*ssa.BasicBlock
+	noMerge     bool
 }
 
 func newExec(ld *Loaded) *Exec {
-	return &Exec{ld: ld, ct: ld.ct, tags: map[string]int{}, preludeSeen: map[string]bool{}, loops: map[*ssa.Function]*loopInfo{}, maxPaths: 4000, oblCount: map[string]int{}, usedExterns: map[string]bool{}, usedRelies: map[string]bool{}, paramVals: map[string][]*Val{}}
+	return &Exec{ld: ld, ct: ld.ct, tags: map[string]int{}, preludeSeen: map[string]bool{}, loops: map[*ssa.Function]*loopInfo{}, maxPaths: 4000, oblCount: map[string]int{}, usedExterns: map[string]bool{}, usedRelies: map[string]bool{}, paramVals: map[string][]*Val{}, pdomCache: map[*ssa.Function]map[*ssa.BasicBlock]*ssa.BasicBlock{}}
 }
 
 func (ex *Exec) fail(f string, a ...any) {
@@ -935,6 +937,9 @@ func (ex *Exec) branch(st *State, desc string) {
 }
 
 func (ex *Exec) runBlock(st *State, b *ssa.BasicBlock, pred *ssa.BasicBlock) {
+	if ex.tryStop(st, b, pred) {
+		return
+	}
 	fr := st.frame
 	fn := fr.fn
 	li := ex.loopsOf(fn)
@@ -1505,13 +1510,7 @@ func (ex *Exec) step(st *State, b *ssa.BasicBlock, i int, in ssa.Instruction) bo
 			ex.runBlock(st, fb, b)
 			return false
 		}
-		st2 := st.clone()
-		st.assume(c.T)
-		ex.branch(st, fmt.Sprintf("b%d:T", b.Index))
-		ex.runBlock(st, tb, b)
-		st2.assume(mkNot(c.T))
-		ex.branch(st2, fmt.Sprintf("b%d:F", b.Index))
-		ex.runBlock(st2, fb, b)
+		ex.branchIf(st, b, c.T)
 		return false
 	case *ssa.Jump:
 		ex.runBlock(st, b.Succs[0], b)
